@@ -847,7 +847,27 @@ func runC17rest(p *an.Prog, r *an.Run, tier string) {
 			for _, c := range an.Calls(fn, false) {
 				if an.IsFunc(an.CallObj(c), "io", "LimitReader") && len(c.Common().Args) == 2 {
 					nLim++
-					if !isMaxField(c.Common().Args[1]) {
+					okLimit := isMaxField(c.Common().Args[1])
+					if prm, isPrm := c.Common().Args[1].(*ssa.Parameter); isPrm && !okLimit {
+						// a small helper limitReader(r, max): judged at its call sites
+						idx := -1
+						for i, q := range fn.Params {
+							if q == prm {
+								idx = i
+							}
+						}
+						sites := p.StaticSites(fn)
+						okLimit = idx >= 0 && len(sites) > 0
+						for _, site := range sites {
+							if p.IsTestFunc(site.Parent()) {
+								continue
+							}
+							if idx >= len(site.Common().Args) || !isMaxField(site.Common().Args[idx]) {
+								okLimit = false
+							}
+						}
+					}
+					if !okLimit {
 						hb = append(hb, an.FuncName(fn)+" reads the body through a LimitReader at "+p.Pos(c.Pos())+" whose limit is not the configured MaxContentLength: a message within the limit can be cut short or not read at all")
 					}
 				}
@@ -875,7 +895,7 @@ func runC17rest(p *an.Prog, r *an.Run, tier string) {
 				}
 			})
 		}
-		r.Floor("http-limit-sites", nLim, 4)
+		r.Floor("http-limit-sites", nLim, 3)
 		r.Check(len(hb) == 0, "http-limits", "jsonrpc2", token.NoPos, "bodies within MaxContentLength are read in full", "%s", strings.Join(dedup(hb), "; "))
 	}
 
